@@ -213,7 +213,7 @@ def must_succeed(vec):
     return False
 
 
-RUNLOG = {}  # idx -> (exit status 0?, normalised output lines, non-regular input?) of every run that ended normally
+RUNLOG = {}  # idx -> normalised output lines of every run that ended normally with a non-zero exit status
 
 
 def norm_lines(text):
@@ -231,14 +231,13 @@ def norm_lines(text):
     return frozenset(out)
 
 
+GOOD_LINES = set()  # every (normalised) line some successful run printed
+
+
 def undiagnosed_failures(runlog):
     """'otherwise prints a diagnostic and exits non-zero': a run that exits non-zero must print at least one line that no successful
     run prints (wording-independent: the set of lines successful runs print is observed, not prescribed). returns failing idx list"""
-    good = set()
-    for ok, lines, _ in runlog.values():
-        if ok:
-            good |= lines
-    return [i for i, (ok, lines, dontcare) in sorted(runlog.items()) if not ok and not dontcare and lines <= good]
+    return [i for i, lines in sorted(runlog.items()) if lines <= GOOD_LINES]
 
 
 def run_vector(exe, reftool, fx, vec, idx, workroot):
@@ -298,7 +297,11 @@ def run_vector(exe, reftool, fx, vec, idx, workroot):
         ok = (rc == 0)
         wf = well_formed(vec)
         # (with -n/--no_echo the user asked for silence: whether a failure is then still announced is a don't-care)
-        RUNLOG[idx] = (ok, norm_lines(so + "\n" + se), vec[1] in ("directory", "devnull", "fifo") or vec[6] == "n" or vec[0] in ("cluster-en",))
+        dontcare = vec[1] in ("directory", "devnull", "fifo") or vec[6] == "n" or vec[0] in ("cluster-en",)
+        if ok:
+            GOOD_LINES.update(norm_lines(so + "\n" + se))
+        elif not dontcare:  # only failing runs are kept (the full product has millions of vectors)
+            RUNLOG[idx] = norm_lines(so + "\n" + se)
         if in_before is not None and (not os.path.isfile(info["in"]) or open(info["in"], "rb").read() != in_before):
             return ("input-modified", "the input file %s was changed by the run (%d bytes before, %s after) (%s)" % (os.path.basename(info["in"]), len(in_before), os.path.getsize(info["in"]) if os.path.isfile(info["in"]) else "gone", vname), tail)
         if vec[1] in ("directory", "devnull", "fifo"):
@@ -625,6 +628,7 @@ def run(pid, tier, replay=None):
                 found = []
                 for rep in range(2):
                     RUNLOG.clear()
+                    GOOD_LINES.clear()
                     for k, v in enumerate(vs + [vec]):
                         run_vector(exe, reftool, fx, v, k, workroot)
                     found.append(len(vs) in undiagnosed_failures(RUNLOG))
